@@ -5,6 +5,7 @@ import z3
 
 from pyvc import sym
 from pyvc.harness import Unit
+from pyvc import harness as _h
 from pyvc.sym import SI, SR, check, assume, explore
 from checks import init_common as ic
 
@@ -48,11 +49,18 @@ def run_flux(mutate=None):
     return dict(obls=obls, paths=n, sources=[], consistent=sym.consistent())
 
 
+
+def _bounded_quick():
+    from checks import physics_native as pn
+    return pn.units_cases(0, reduced=True)
+
+
 def units():
     return [Unit("TDGLSolver.__init__", "tdgl.solver.solver:TDGLSolver.__init__ + tdgl.device.device:Device.Bc2/A0/K0", lambda m=None: ic.run_init(m, prefixes=("C08.",)), props=["C08"], timeout=900),
             Unit("Solution.field_at_position[call contract]", "tdgl.solution.solution:Solution.field_at_position",
                  lambda m=None: __import__("checks.c20", fromlist=["x"]).run_field_at_position(m, prefixes=("C08.",)), props=["C08"], timeout=300),
-            Unit("flux per triangle", "lemma over the formula of tdgl.em:uniform_Bz_vector_potential", run_flux, props=["C08", "C04"], timeout=300)]
+            Unit("flux per triangle", "lemma over the formula of tdgl.em:uniform_Bz_vector_potential", run_flux, props=["C08", "C04"], timeout=300),
+            _h.bounded_unit("physical outputs across unit systems [bounded]", "tdgl.solve / Solution (real runs on one shared mesh)", "C08", _bounded_quick, "same_physical_outputs_in_different_unit_systems[um/mm/nm, static and ramped field]", timeout=900)]
 
 
 def replay_scope(unit, obl):
